@@ -77,6 +77,27 @@ impl FromStr for Level {
     }
 }
 
+/// FromStr whose error text quotes the offending input right after a short prefix
+#[derive(Debug, Clone, PartialEq, Eq)]
+pub struct Echo(String);
+#[derive(Debug)]
+pub struct EchoErr(String);
+impl std::fmt::Display for EchoErr {
+    fn fmt(&self, f: &mut std::fmt::Formatter<'_>) -> std::fmt::Result {
+        write!(f, "no:'{}'", self.0)
+    }
+}
+impl FromStr for Echo {
+    type Err = EchoErr;
+    fn from_str(s: &str) -> Result<Self, EchoErr> {
+        if s.starts_with("ok:") {
+            Ok(Echo(s.to_string()))
+        } else {
+            Err(EchoErr(s.to_string()))
+        }
+    }
+}
+
 // ---- conversions ---------------------------------------------------------------------------
 fn s(x: &str) -> Sc {
     Sc::B(x.as_bytes().to_vec())
@@ -1015,6 +1036,42 @@ impl Shape for S16Normalised {
         Val {
             opts: vec![FV::Flag(self.verbose), FV::One(self.count.map(i))],
             pos: vec![],
+            sub: None,
+        }
+    }
+}
+
+// ---- S17 -----------------------------------------------------------------------------------
+/// Values whose conversion error quotes the input
+#[derive(ArgParse)]
+#[cli(help_path = "h-cli, echo")]
+pub struct S17Echo {
+    #[cli(long = "echo")]
+    echo: Option<Echo>,
+    #[cli(short = "e")]
+    many: Vec<Echo>,
+    word: Option<Echo>,
+}
+impl Shape for S17Echo {
+    fn grammar() -> Grammar {
+        Grammar {
+            name: "S17Echo",
+            opts: vec![
+                o(&["--echo"], Kind::Opt, Ty::Echo),
+                o(&["-e"], Kind::Rep, Ty::Echo),
+            ],
+            pos: vec![p("word", false, Ty::Echo)],
+            sub: None,
+            help: help::<Self>(),
+        }
+    }
+    fn to_val(&self) -> Val {
+        Val {
+            opts: vec![
+                FV::One(self.echo.as_ref().map(|e| s(&e.0))),
+                FV::Many(self.many.iter().map(|e| s(&e.0)).collect()),
+            ],
+            pos: vec![self.word.as_ref().map(|e| s(&e.0))],
             sub: None,
         }
     }
